@@ -524,7 +524,11 @@ func execC25(r *Run) {
 		return
 	}
 	for _, st := range streams {
-		r.Logf("stream seq=%d filter=%q stopped=%v got=%d want=%d", st.seq, st.filter, st.stopped, len(st.got), len(st.want))
+		got := len(st.got)
+		if st.overflow || st.stopped {
+			got = -1 // how many records squeeze through an overflowing buffer (or before a stop takes effect) is decided by the Go scheduler: not in the canonical log
+		}
+		r.Logf("stream seq=%d filter=%q stopped=%v got=%d want=%d", st.seq, st.filter, st.stopped, got, len(st.want))
 		// only matching events, in order
 		j := 0
 		for _, gsig := range st.got {
@@ -543,7 +547,9 @@ func execC25(r *Run) {
 		}
 	}
 	for _, q := range queries {
-		r.Logf("query seq=%d records=%v", q.seq, q.recs)
+		// (which replies made it before the deadline is decided by Go's select when a reply and
+		// the deadline fall on the same instant: not part of the canonical log)
+		r.Logf("query seq=%d done=%d afterDone=%d", q.seq, q.done, q.afterDone)
 		if q.done != 1 {
 			r.Fail("query-stream-completion", "C25 done-count", "query stream seq=%d ended with %d completion records (records: %v)", q.seq, q.done, q.recs)
 			return
